@@ -73,6 +73,9 @@ def cases(rng, budget, widx, nworkers, tier):
             label = "vectors"
         else:
             (a, b), label = gen.gen_pair(rng, ka, kb, small=sm())
+        if ka == kb and ka != "VEC" and rng.random() < 0.25:
+            b = a                   # the same set, lifted through another constructor form / vertex order: == must hold before and after T
+            label = "same-object-other-representation"
         heavy = "PH" in (ka, kb)
         perms = rng.sample(range(48), 3 if heavy else 8)
         for pi in perms:
